@@ -626,3 +626,19 @@ package graphql
 //@   call conn.rerunSubscriptionsImmediately assert nwrites == 1
 //@   call conn.rerunSubscriptionsImmediately ghost nrerun = nrerun + 1
 //@   ensures nwrites == 1 && nclose == 1 && result1 != nil && nrerun <= 1
+
+// ---- C02 (a lost update is never followed by a delta): if an envelope cannot be written - for a reason other than the
+// connection having been closed already - the socket is closed, because the subscription's record of what the client holds
+// has already advanced. Writes are serialised by the write mutex.
+//@ func conn.writeOrClose
+//@   requires c != nil
+//@   ghost werr error
+//@   ghost closeErr bool
+//@   ghost nclosed int
+//@   entry ghost nclosed = 0
+//@   call WriteJSON assert held(conn.writeMu) && arg1 == any(out)
+//@   call WriteJSON ghost werr = ret0
+//@   call isCloseError ghost closeErr = ret0
+//@   call isCloseError assert arg0 == werr
+//@   call Close ghost nclosed = nclosed + 1
+//@   ensures werr != nil && !closeErr ==> nclosed == 1
